@@ -6,7 +6,7 @@ From ACB Require Import Base.Outcome Base.QcExtra Base.Arith Model.Tx Model.Ledg
      Model.DeltaList Model.App Model.Summary Model.SummaryObs Proofs.SummaryProps.
 From Coq Require Import Sorted.
 From ACB Require Import Proofs.C15Full Proofs.SortLayout Proofs.C10Scan Proofs.C10Sim Proofs.C10Roundtrip
-     Proofs.C10Ranges Proofs.C10Cut Proofs.C10Window Proofs.C10Classes Proofs.C10Holdings Proofs.C10Entry Proofs.C10Examples Proofs.C10Annual.
+     Proofs.C10Ranges Proofs.C10Cut Proofs.C10Window Proofs.C10Classes Proofs.C10Holdings Proofs.C10Entry Proofs.C10Examples Proofs.C10Annual Proofs.C04Inv.
 Import ListNotations.
 
 (* ------------------------------------------------------------------ the full statement
@@ -334,15 +334,26 @@ Print Assumptions C10_summary_ranges_cut.
    with sales re-specified.  If every reported row with a superficial loss has
    B1 and B2 before its window, every other sale at a loss has B2 before its
    window ([wcond]), and no row carries a zero superficial-loss cell, the
-   re-run reports EXACTLY the same rows - generated adjustments included. *)
+   re-run reports EXACTLY the same rows - generated adjustments included.
+   Since the fix "treat a superficial loss that rounds to zero effective cents
+   as no superficial loss" a sale may carry no superficial loss although the
+   scans of the full history found one (the denied amount rounded to zero);
+   the re-run, seeing at most the same acquisitions, denies at most as much
+   and rounds to zero as well (Proofs/C10Zero.v) - for that step the state of
+   the full history is well formed ([st_ok], as every state of an accepted run
+   is) and every sale sells a positive number of shares ([sell_pos], what
+   Tx::try_from guarantees): two hypotheses the statement did not have
+   before. *)
 Theorem C10_later_loss_rows_reproduced : forall B1 B2 regof T D1 D2 st1 st2 dsT,
   Forall2 row_sim D2 D1 -> srel regof st1 st2 -> Forall spec_nz T ->
+  st_ok st1 -> Forall sell_pos T ->
   run_loop exact (D1 ++ B1) st1 T = (dsT, None) -> Forall (wcond B1 B2) dsT ->
   Forall (gooddelta regof) dsT ->
   run_loop exact (D2 ++ B2) st2 T = (dsT, None).
 Proof. exact later_sim. Qed.
 Check C10_later_loss_rows_reproduced : forall B1 B2 regof T D1 D2 st1 st2 dsT,
   Forall2 row_sim D2 D1 -> srel regof st1 st2 -> Forall spec_nz T ->
+  st_ok st1 -> Forall sell_pos T ->
   run_loop exact (D1 ++ B1) st1 T = (dsT, None) -> Forall (wcond B1 B2) dsT ->
   Forall (gooddelta regof) dsT ->
   run_loop exact (D2 ++ B2) st2 T = (dsT, None).
@@ -408,7 +419,7 @@ Theorem C10_roundtrip_simple_partial :
   Forall (fun h : hold_row => exists d, In d dsP /\ snd h = d_sd d) hs ->
   (forall h d, In h hs -> In d (dsK ++ dsT) -> plain_loss_sell d = true -> within_after (snd h) (d_sd d) = false) ->
   keep_all dsK = Ok K' ->
-  Forall spec_nz (K ++ T) -> Forall sell_pos K ->
+  Forall spec_nz (K ++ T) -> Forall sell_pos (K ++ T) ->
   exists dsG dsK',
     run exact None (map (hold_tx like) hs ++ K' ++ T) = (dsG ++ dsK' ++ dsT, None)
     /\ map (fun d => (s_sh (d_post d), s_acb (d_post d))) dsG
@@ -432,7 +443,7 @@ Check C10_roundtrip_simple_partial :
   Forall (fun h : hold_row => exists d, In d dsP /\ snd h = d_sd d) hs ->
   (forall h d, In h hs -> In d (dsK ++ dsT) -> plain_loss_sell d = true -> within_after (snd h) (d_sd d) = false) ->
   keep_all dsK = Ok K' ->
-  Forall spec_nz (K ++ T) -> Forall sell_pos K ->
+  Forall spec_nz (K ++ T) -> Forall sell_pos (K ++ T) ->
   exists dsG dsK',
     run exact None (map (hold_tx like) hs ++ K' ++ T) = (dsG ++ dsK' ++ dsT, None)
     /\ map (fun d => (s_sh (d_post d), s_acb (d_post d))) dsG
@@ -474,7 +485,7 @@ Example C10_roundtrip_simple_partial_nonvacuous :
   /\ Forall (fun h : hold_row => exists d, In d rt_dsP /\ snd h = d_sd d) rt_hs
   /\ (forall h d, In h rt_hs -> In d (rt_dsK ++ rt_dsT) -> plain_loss_sell d = true -> within_after (snd h) (d_sd d) = false)
   /\ keep_all rt_dsK = Ok rt_K'
-  /\ Forall spec_nz (rt_K ++ rt_T) /\ Forall sell_pos rt_K
+  /\ Forall spec_nz (rt_K ++ rt_T) /\ Forall sell_pos (rt_K ++ rt_T)
   /\ map (fun d => (d_sd d, is_sfl_delta d, plain_loss_sell d)) (rt_dsK ++ rt_dsT)
      = [(737100, false, false); (737110, true, false); (737110, false, false);
         (737125, true, false); (737125, false, false); (737135, false, false); (737300, false, true)]%Z
@@ -542,7 +553,9 @@ Print Assumptions C10_holdings_at_cut.
    every row: not entered for all affiliates, of one security [sec], with an
    affiliate whose registered flag is a function of its id ([rowQ]); rows
    well-formed (valid_tx: what Tx::try_from guarantees); no sale carries a zero
-   superficial-loss cell (see C10_zero_sfl_cell_witness: needed); the summary
+   superficial-loss cell (a hypothesis of the proof; until the fix of the
+   effective-cent panic it was NEEDED, see C10_zero_sfl_cell_witness - the
+   former witnesses pass now and no history is known on which it is); the summary
    is not changed by the CSV layer (through_csv: it is changed only when every
    summary row is of the default affiliate and a re-emitted row is a split).
    Then, from history_ok, outside K_summary_buy_in_window and
@@ -568,28 +581,31 @@ Check C10_roundtrip_simple_single_security : forall regof sec latest rows0,
   roundtrip_ok exact latest false rows = true /\ roundtrip_obs_ok exact latest false rows = true.
 Print Assumptions C10_roundtrip_simple_single_security.
 
-(* ------------------------------------------------------------------ the zero cell has to be excluded: a fifth class
-   K_zero_sfl_cell.  A sale whose superficial-loss cell is a forced zero is
-   not superficial whatever the rows around it; the full history computes its
-   value from an acquisition of an affiliate that holds nothing at the date (no
-   summary row), the re-run from what is left - here a tiny later purchase -
-   gets a loss that rounds to 0.00 and PANICS (util/math.rs:93, the panic of
-   finding C05 eff-cent-zero, masked in the full history).  Outside the four
-   other classes; exact and dec; replayed on the real code (design.d/C10-roundtrip.md). *)
-Theorem C10_zero_sfl_cell_witness :
+(* ------------------------------------------------------------------ the former fifth class K_zero_sfl_cell
+   A sale whose superficial-loss cell is a forced zero is not superficial
+   whatever the rows around it; the full history computes its value from an
+   acquisition of an affiliate that holds nothing at the date (no summary
+   row), the re-run from what is left - here a tiny later purchase - gets a
+   loss that rounds to 0.00 and, until the fix "treat a superficial loss that
+   rounds to zero effective cents as no superficial loss", PANICKED
+   (util/math.rs:93, the panic of finding C05 eff-cent-zero, masked in the
+   full history).  With the repaired code (and model) the history PASSES the
+   round trip, exact and dec; a regression case of the check
+   (design.d/effcent.md). *)
+Example C10_zero_sfl_cell_witness :
   history_ok exact wit5 = true /\ history_ok dec wit5 = true
-  /\ roundtrip_ok exact wit5_date false wit5 = false /\ roundtrip_obs_ok exact wit5_date false wit5 = false
-  /\ roundtrip_obs_ok dec wit5_date false wit5 = false
+  /\ roundtrip_ok exact wit5_date false wit5 = true /\ roundtrip_obs_ok exact wit5_date false wit5 = true
+  /\ roundtrip_obs_ok dec wit5_date false wit5 = true
   /\ K_summary_buy_in_window exact wit5_date false wit5 = false
   /\ K_zero_balance_acb exact wit5_date wit5 = false
   /\ K_idle_split_expansion exact wit5_date wit5 = false
   /\ K_zero_sfl_cell wit5 = true
   /\ Forall (rowQ no_reg 0) wit5 /\ forallb valid_tx wit5 = true.
-Proof. exact wit5_fails. Qed.
+Proof. exact wit5_passes. Qed.
 Check C10_zero_sfl_cell_witness :
   history_ok exact wit5 = true /\ history_ok dec wit5 = true
-  /\ roundtrip_ok exact wit5_date false wit5 = false /\ roundtrip_obs_ok exact wit5_date false wit5 = false
-  /\ roundtrip_obs_ok dec wit5_date false wit5 = false
+  /\ roundtrip_ok exact wit5_date false wit5 = true /\ roundtrip_obs_ok exact wit5_date false wit5 = true
+  /\ roundtrip_obs_ok dec wit5_date false wit5 = true
   /\ K_summary_buy_in_window exact wit5_date false wit5 = false
   /\ K_zero_balance_acb exact wit5_date wit5 = false
   /\ K_idle_split_expansion exact wit5_date wit5 = false
@@ -597,16 +613,9 @@ Check C10_zero_sfl_cell_witness :
   /\ Forall (rowQ no_reg 0) wit5 /\ forallb valid_tx wit5 = true.
 Print Assumptions C10_zero_sfl_cell_witness.
 
-(* C10_outside_known2_full is therefore false as well; with the fifth class: *)
-Theorem C10_outside_known2_full_refuted : ~ C10_outside_known2_full.
-Proof.
-  intros H. specialize (H wit5_date false wit5).
-  destruct wit5_fails as (H1 & _ & _ & H4 & _ & H6 & H7 & _).
-  assert (H5 : K_annual_sell_in_window exact wit5_date false wit5 = false) by (vm_compute; reflexivity).
-  rewrite (H H1 H6 H5 H7) in H4. discriminate H4.
-Qed.
-Check C10_outside_known2_full_refuted : ~ C10_outside_known2_full.
-Print Assumptions C10_outside_known2_full_refuted.
+(* C10_outside_known2_full was refuted by that witness
+   (C10_outside_known2_full_refuted, removed with the fix: the witness passes);
+   it is an open Definition again.  The statement with the cell hypothesis: *)
 
 Definition C10_outside_known3_full : Prop := forall latest annual rows0,
   let rows := number_from 0 rows0 in
@@ -708,7 +717,8 @@ Theorem C10_roundtrip_annual_partial :
   Forall (fun s => (d0 < as_date s - window_days)%Z) sells ->
   ps_all st1 = tot_sh hs -> lp st1 = ps_all st1 ->
   (forall af, goodaf regof af -> obs st1 af = obs_hs hs af ah_sh (0%Qc, if af_reg af then None else Some 0%Qc)) ->
-  run_loop exact B1 st1 T = (dsT, None) -> Forall spec_nz T -> Forall (gooddelta regof) dsT ->
+  run_loop exact B1 st1 T = (dsT, None) -> Forall spec_nz T -> st_ok st1 -> Forall sell_pos T ->
+  Forall (gooddelta regof) dsT ->
   Forall (fun d => (d_sfl d <> None -> inert exact (d_sd d - window_days) B1)
                    /\ ((d_sfl d <> None \/ loss_row d) -> (d0 < d_sd d - window_days)%Z)) dsT ->
   exists dsB dsS,
@@ -726,7 +736,8 @@ Check C10_roundtrip_annual_partial :
   Forall (fun s => (d0 < as_date s - window_days)%Z) sells ->
   ps_all st1 = tot_sh hs -> lp st1 = ps_all st1 ->
   (forall af, goodaf regof af -> obs st1 af = obs_hs hs af ah_sh (0%Qc, if af_reg af then None else Some 0%Qc)) ->
-  run_loop exact B1 st1 T = (dsT, None) -> Forall spec_nz T -> Forall (gooddelta regof) dsT ->
+  run_loop exact B1 st1 T = (dsT, None) -> Forall spec_nz T -> st_ok st1 -> Forall sell_pos T ->
+  Forall (gooddelta regof) dsT ->
   Forall (fun d => (d_sfl d <> None -> inert exact (d_sd d - window_days) B1)
                    /\ ((d_sfl d <> None \/ loss_row d) -> (d0 < d_sd d - window_days)%Z)) dsT ->
   exists dsB dsS,
@@ -754,7 +765,8 @@ Example C10_roundtrip_annual_partial_nonvacuous :
   /\ ps_all an_st1 = tot_sh an_hs /\ lp an_st1 = ps_all an_st1
   /\ (forall af, goodaf no_reg0 af ->
         obs an_st1 af = obs_hs an_hs af ah_sh (Q2Qc 0, if af_reg af then None else Some (Q2Qc 0)))
-  /\ run_loop exact an_B1 an_st1 an_T = (an_dsT, None) /\ Forall spec_nz an_T /\ Forall (gooddelta no_reg0) an_dsT
+  /\ run_loop exact an_B1 an_st1 an_T = (an_dsT, None) /\ Forall spec_nz an_T
+  /\ st_ok an_st1 /\ Forall sell_pos an_T /\ Forall (gooddelta no_reg0) an_dsT
   /\ Forall (fun d => (d_sfl d <> None -> inert exact (d_sd d - window_days) an_B1)
                      /\ ((d_sfl d <> None \/ loss_row d) -> (an_d0 < d_sd d - window_days)%Z)) an_dsT
   /\ existsb is_sfl_delta an_dsT = true
@@ -763,21 +775,21 @@ Example C10_roundtrip_annual_partial_nonvacuous :
 Proof. exact an_hypotheses. Qed.
 
 (* ------------------------------------------------------------------ K_zero_sfl_cell with in-range quantities
-   the witness of C10_zero_sfl_cell_witness with at most 10 decimal places:
+   the history of C10_zero_sfl_cell_witness with at most 10 decimal places:
    a loss of $0.50 on one share (cell 0!), 0.0000000001 shares bought five days
-   later; replayed on the real code (same panic, util/math.rs:93) *)
-Theorem C10_zero_sfl_cell_witness_in_range :
+   later; it panicked on the unrepaired code (util/math.rs:93) and passes now *)
+Example C10_zero_sfl_cell_witness_in_range :
   history_ok exact wit6 = true /\ history_ok dec wit6 = true
-  /\ roundtrip_obs_ok exact wit5_date false wit6 = false /\ roundtrip_obs_ok dec wit5_date false wit6 = false
+  /\ roundtrip_obs_ok exact wit5_date false wit6 = true /\ roundtrip_obs_ok dec wit5_date false wit6 = true
   /\ K_summary_buy_in_window exact wit5_date false wit6 = false
   /\ K_zero_balance_acb exact wit5_date wit6 = false
   /\ K_idle_split_expansion exact wit5_date wit6 = false
   /\ K_zero_sfl_cell wit6 = true
   /\ Forall (rowQ no_reg 0) wit6 /\ forallb valid_tx wit6 = true.
-Proof. exact wit6_fails. Qed.
+Proof. exact wit6_passes. Qed.
 Check C10_zero_sfl_cell_witness_in_range :
   history_ok exact wit6 = true /\ history_ok dec wit6 = true
-  /\ roundtrip_obs_ok exact wit5_date false wit6 = false /\ roundtrip_obs_ok dec wit5_date false wit6 = false
+  /\ roundtrip_obs_ok exact wit5_date false wit6 = true /\ roundtrip_obs_ok dec wit5_date false wit6 = true
   /\ K_summary_buy_in_window exact wit5_date false wit6 = false
   /\ K_zero_balance_acb exact wit5_date wit6 = false
   /\ K_idle_split_expansion exact wit5_date wit6 = false
